@@ -150,6 +150,12 @@ static int cb_fn(jwt_t *, jwt_config_t *c) {
   return 0;
 }
 
+// the callback is installed either in one call or - every second cell - in two: first with a context that makes it do nothing, then the
+// context alone is replaced ("calling this with a NULL cb param and a new ctx param ... will allow updating the ctx", jwt.h)
+static CbCtx IDLE_CTX{nullptr, JWT_ALG_NONE, -1};
+static bool g_two_step = false;
+static int install_cb(jwt_checker_t *ch, CbCtx *cx) { if (!g_two_step) return jwt_checker_setcb(ch, cb_fn, cx); int r = jwt_checker_setcb(ch, cb_fn, &IDLE_CTX); return r ? r : jwt_checker_setcb(ch, NULL, cx); }
+static int install_cb(jwt_builder_t *b, CbCtx *cx) { if (!g_two_step) return jwt_builder_setcb(b, cb_fn, cx); int r = jwt_builder_setcb(b, cb_fn, &IDLE_CTX); return r ? r : jwt_builder_setcb(b, NULL, cx); }
 static bool supported(int prov, const KeySpec &k, jwt_alg_t a) { if (prov == 0) return true; return !(a == JWT_ALG_ES256K || k.crv == "secp256k1"); }
 
 struct Cell { int prov, route, E, kc, hv, sk; bool builder; bool pubkey; std::string token; };
@@ -201,7 +207,7 @@ static bool verify_cell(Cell c, bool count = true) {
   const jwk_item_t *item = kc ? kc->pub.item : nullptr;
   if (kc && kc->k->kind == K_OCT) item = kc->priv.item;
   CUR = c;
-  use_provider(c.prov);
+  use_provider(c.prov); g_two_step = ((c.hv + c.sk + c.kc + c.E) & 1) != 0;
   jwt_checker_t *ch = jwt_checker_new();
   jwt_checker_time_leeway(ch, JWT_CLAIM_EXP, 0);
   CbCtx cx{item, (jwt_alg_t)c.E, c.route};
@@ -209,11 +215,11 @@ static bool verify_cell(Cell c, bool count = true) {
   int E_final = c.E; const KeyCfg *kc_final = kc;
   switch (c.route) {
   case R_SETKEY: admitted = jwt_checker_setkey(ch, (jwt_alg_t)c.E, item) == 0; break;
-  case R_CB_BOTH: jwt_checker_setcb(ch, cb_fn, &cx); break;
-  case R_CB_KEY: if (c.E != JWT_ALG_NONE) skip = true; jwt_checker_setcb(ch, cb_fn, &cx); break;
-  case R_CB_ALG: if (!item || jwt_checker_setkey(ch, JWT_ALG_NONE, item)) skip = true; jwt_checker_setcb(ch, cb_fn, &cx); break;
+  case R_CB_BOTH: install_cb(ch, &cx); break;
+  case R_CB_KEY: if (c.E != JWT_ALG_NONE) skip = true; install_cb(ch, &cx); break;
+  case R_CB_ALG: if (!item || jwt_checker_setkey(ch, JWT_ALG_NONE, item)) skip = true; install_cb(ch, &cx); break;
   case R_SWAP_KEY: { const KeyCfg *sib = kc ? sibling_with_attr(kc) : nullptr; if (!sib || c.E != JWT_ALG_NONE) { skip = true; break; }
-      const jwk_item_t *si = sib->k->kind == K_OCT ? sib->priv.item : sib->pub.item; if (jwt_checker_setkey(ch, JWT_ALG_NONE, si)) skip = true; jwt_checker_setcb(ch, cb_fn, &cx); break; }
+      const jwk_item_t *si = sib->k->kind == K_OCT ? sib->priv.item : sib->pub.item; if (jwt_checker_setkey(ch, JWT_ALG_NONE, si)) skip = true; install_cb(ch, &cx); break; }
   }
   bool ok = true;
   if (skip) { jwt_checker_free(ch); return true; }
@@ -272,17 +278,17 @@ static bool builder_cell(Cell c, bool count = true) {
   const KeyCfg *kc = c.kc >= 0 ? KC[c.kc].get() : nullptr;
   const jwk_item_t *item = kc ? (c.pubkey ? kc->pub.item : kc->priv.item) : nullptr;
   c.builder = true; CUR = c;
-  use_provider(c.prov);
+  use_provider(c.prov); g_two_step = ((c.hv + c.sk + c.kc + c.E) & 1) != 0;
   jwt_builder_t *b = jwt_builder_new();
   CbCtx cx{item, (jwt_alg_t)c.E, c.route};
   int admitted = 1; bool skip = false;
   switch (c.route) {
   case R_SETKEY: admitted = jwt_builder_setkey(b, (jwt_alg_t)c.E, item) == 0; break;
-  case R_CB_BOTH: jwt_builder_setcb(b, cb_fn, &cx); break;
-  case R_CB_KEY: if (c.E != JWT_ALG_NONE) skip = true; jwt_builder_setcb(b, cb_fn, &cx); break;
-  case R_CB_ALG: if (!item || jwt_builder_setkey(b, JWT_ALG_NONE, item)) skip = true; jwt_builder_setcb(b, cb_fn, &cx); break;
+  case R_CB_BOTH: install_cb(b, &cx); break;
+  case R_CB_KEY: if (c.E != JWT_ALG_NONE) skip = true; install_cb(b, &cx); break;
+  case R_CB_ALG: if (!item || jwt_builder_setkey(b, JWT_ALG_NONE, item)) skip = true; install_cb(b, &cx); break;
   case R_SWAP_KEY: { const KeyCfg *sib = kc ? sibling_with_attr(kc) : nullptr; if (!sib || c.E != JWT_ALG_NONE) { skip = true; break; }
-      if (jwt_builder_setkey(b, JWT_ALG_NONE, sib->priv.item)) skip = true; jwt_builder_setcb(b, cb_fn, &cx); break; }
+      if (jwt_builder_setkey(b, JWT_ALG_NONE, sib->priv.item)) skip = true; install_cb(b, &cx); break; }
   }
   if (skip) { jwt_builder_free(b); return true; }
   bool ok = true;
